@@ -85,13 +85,14 @@ Qed.
 Lemma step_expect k s : step s (expect k s).
 Proof. unfold expect. destruct (cur_is s k); [apply step_bump|apply step_error]. Qed.
 
-Lemma step_version_text s : step s (version_text s).
+Lemma step_version_run fuel : forall s, step s (version_run fuel s).
 Proof.
-  unfold version_text. destruct (cur_is s IDENT); [|apply step_error].
-  destruct (cur_is (bump s) COLON).
-  - eapply step_trans; [apply step_bump|]. eapply step_trans; [apply step_bump|apply step_expect].
-  - apply step_bump.
+  induction fuel as [|f IH]; intros s; cbn [version_run]; destruct (cur_is_vtok s); try apply step_refl.
+  - apply step_out_of_fuel.
+  - eapply step_trans; [apply step_bump|apply IH].
 Qed.
+Lemma step_version_text s : step s (version_text s).
+Proof. unfold version_text. destruct (cur_is_vtok s); [apply step_version_run|apply step_error]. Qed.
 
 Opaque bump skip_ws error expect in_node out_of_fuel version_text.
 
@@ -274,13 +275,6 @@ Proof. apply step_expect. Qed.
 Lemma ltoks_expect_lt k s : current s <> None -> ltoks (expect k s) < ltoks s.
 Proof. intros H. unfold expect. destruct (cur_is s k); [apply ltoks_bump|apply ltoks_error_lt]; exact H. Qed.
 
-Lemma flag_version_text s : flag (version_text s) = flag s.
-Proof.
-  unfold version_text. destruct (cur_is s IDENT) eqn:E; [|apply flag_error].
-  pose proof (flag_bump s (cur_is_some _ _ E)) as F1.
-  destruct (cur_is (bump s) COLON) eqn:E2; [|exact F1].
-  rewrite flag_expect, flag_bump; [exact F1|eapply cur_is_some; exact E2].
-Qed.
 Lemma ltoks_version_text s : ltoks (version_text s) <= ltoks s.
 Proof. apply step_version_text. Qed.
 
@@ -371,8 +365,24 @@ Proof. intros [O L]. split; [unfold ok; rewrite flag_in_node; exact O|rewrite lt
 Lemma goodlt_in_node k body s : goodlt (reset s) (body (reset s)) -> goodlt s (in_node k body s).
 Proof. intros [O L]. split; [unfold ok; rewrite flag_in_node; exact O|rewrite ltoks_in_node; exact L]. Qed.
 
+Transparent version_text.
+Lemma cur_is_vtok_some s : cur_is_vtok s = true -> current s <> None.
+Proof.
+  unfold cur_is_vtok. intros H. apply orb_true_iff in H. destruct H as [H|H]; eapply cur_is_some; exact H.
+Qed.
+Lemma good_version_run fuel : forall s, ok s -> ltoks s < fuel -> good s (version_run fuel s).
+Proof.
+  induction fuel as [|f IH]; intros s Hok Hl; [lia|]. cbn [version_run].
+  destruct (cur_is_vtok s) eqn:E; [|apply good_refl; exact Hok].
+  pose proof (goodlt_bump s Hok (cur_is_vtok_some _ E)) as [Ob Lb].
+  destruct (IH _ Ob) as [A B]; [lia|]. split; [exact A|lia].
+Qed.
 Lemma good_version_text s : ok s -> good s (version_text s).
-Proof. intros H. split; [unfold ok; rewrite flag_version_text; exact H|apply ltoks_version_text]. Qed.
+Proof.
+  intros H. unfold version_text. destruct (cur_is_vtok s) eqn:E; [|apply good_error; exact H].
+  apply good_version_run; [exact H|unfold loop_fuel, ltoks; lia].
+Qed.
+Opaque version_text.
 
 Lemma good_arch_loop fuel : forall s, ok s -> ltoks s < fuel -> good s (arch_loop fuel s).
 Proof.
@@ -778,11 +788,14 @@ Proof.
   intros t Ht. cbv zeta. apply keeps_profile_loop; [lia|]. apply keeps_bump. exact Ht.
 Qed.
 
+Lemma keeps_version_run k fuel : keeps k (version_run fuel).
+Proof.
+  induction fuel as [|f IH]; intros s H; cbn [version_run]; destruct (cur_is_vtok s); try exact H.
+  apply IH. apply keeps_bump. exact H.
+Qed.
 Lemma keeps_version_text k : 1 <= k -> keeps k version_text.
 Proof.
-  intros Hk s H. unfold version_text. destruct (cur_is s IDENT); [|apply keeps_error; [lia|exact H]]. cbv zeta.
-  destruct (cur_is (bump s) COLON); [|apply keeps_bump; exact H].
-  apply keeps_expect; [lia|]. apply keeps_bump, keeps_bump. exact H.
+  intros Hk s H. unfold version_text. destruct (cur_is_vtok s); [apply keeps_version_run; exact H|apply keeps_error; [lia|exact H]].
 Qed.
 Lemma keeps_parse_relation k : 3 <= k -> keeps k parse_relation.
 Proof.
